@@ -199,11 +199,22 @@ impl<W: 'static, R: 'static, T: 'static> XGenerator<W, R, T> {
             }),
             Self::Slice(gen, start, end) => either_g({
                 let inner: BIter<_, _, _> = Box::new(to_native!(gen, Self)._iter(ns, rt));
+                // the skipped elements are never observed, but a violation raised while producing one of them
+                // is not an element: it must still reach the consumer
+                let mut to_skip = *start;
+                let inner = inner.skip_while(move |item| {
+                    if to_skip > 0 && matches!(item, Ok(_)) {
+                        to_skip -= 1;
+                        true
+                    } else {
+                        false
+                    }
+                });
                 if let Some(end) = end {
                     // `end` is an absolute position in the inner generator
-                    Either::Left(inner.skip(*start).take(end.saturating_sub(*start)))
+                    Either::Left(inner.take(end.saturating_sub(*start)))
                 } else {
-                    Either::Right(inner.skip(*start))
+                    Either::Right(inner)
                 }
             }),
             Self::Filter(gen, func) => either_h({
